@@ -128,7 +128,8 @@ theorem cmdServerSvsjoin_congr : HCongr cmdServerSvsjoin := by
     split
     · refine RRel.bind_same (fun pn => ?_)
       ceqs
-    · rw [hch.contains_nicks]
+    · rw [hch.contains_nicks, h.config, h.st.channels.length_eq]
+      refine RRel.ite Iff.rfl (fun _ _ => RRel.bind_same (fun pn => by ceqs)) (fun _ _ => ?_)
       split
       · ceqs
       · refine RRel.bind (modS_congr hA tid (fun s s' hs => hs.withChannels (setInsert_perm hs.channels _))) (fun c2 c2' h2 => ?_)
